@@ -37,9 +37,34 @@ unsigned GetBlockScriptFlags(bool has_exception, unsigned exception_flags, bool 
 __CPROVER_ensures(__CPROVER_return_value == SPEC_FLAGS)
 __CPROVER_assigns();
 
+bool nondet_bool(void); unsigned nondet_uint(void); unsigned char nondet_uchar(void); int nondet_int(void);
+#include "verif_ser.h"
+#include "../witprog_contracts.h"   /* VerifyWitnessProgram: BIP141 / BIP341 dispatch (same contract as in C12) */
 #define C11_PASS_FUNCS
-#include "slices.h"      /* second pass: the extracted function */
-bool nondet_bool(void); unsigned nondet_uint(void);
+#define C11_PASS_WITPROG
+#include "slices.h"      /* second pass: the extracted functions */
+void h_VerifyWitnessProgram(void) { const WitView* w; const ByteVec* pr; ScriptError* se; int wv; unsigned fl; bool p2sh; WITPROG_HARNESS_INPUTS(); g_ews_err = (ScriptError)nondet_uchar(); g_schnorr_err = (ScriptError)nondet_uchar(); VERIF_REACH_ON(VerifyWitnessProgram); VerifyWitnessProgram(w, wv, pr, fl, se, p2sh); }
+/* lemma (contract only): the witness-program dispatch is monotone in its flags -- if it succeeds under a flag set it succeeds under every subset,
+ * given that ExecuteWitnessScript is (ASSUMED: its verdict under the smaller set is true whenever it is true under the larger one; the other stubs do not see the flags) */
+void h_lemma_witprog_flag_monotone(void)
+{
+    WitView* w = malloc(sizeof(WitView)); ByteVec* pr = malloc(sizeof(ByteVec)); ScriptError* se = malloc(sizeof(ScriptError)); __CPROVER_assume(w && pr && se);
+    pr->data = malloc(40); __CPROVER_assume(pr->data); pr->size = nondet_uint(); __CPROVER_assume(pr->size >= 2 && pr->size <= 40); w->n0 = w->n; __CPROVER_assume(w->ser_size <= 0x100000000ull);
+    int wv = nondet_int(); __CPROVER_assume(wv >= 0 && wv <= 16); bool p2sh = nondet_bool();
+    unsigned big = nondet_uint(), small = nondet_uint(); __CPROVER_assume((small & ~big) == 0);
+    WITPROG_HARNESS_INPUTS(); g_ews_err = (ScriptError)nondet_uchar(); g_schnorr_err = (ScriptError)nondet_uchar(); __CPROVER_assume(g_ews_err != SCRIPT_ERR_OK && g_schnorr_err != SCRIPT_ERR_OK);
+    bool ews_big = nondet_bool(), ews_small = nondet_bool(); __CPROVER_assume(!ews_big || ews_small);
+    g_hash_called = 0; g_ews_called = 0; g_schnorr_called = 0; g_commit_called = 0;
+    g_ews_ok = ews_big; bool r_big = VerifyWitnessProgram(w, wv, pr, big, se, p2sh);
+    g_hash_called = 0; g_ews_called = 0; g_schnorr_called = 0; g_commit_called = 0;
+    g_ews_ok = ews_small; bool r_small = VerifyWitnessProgram(w, wv, pr, small, se, p2sh);
+#ifdef TWIN_MONO
+    __CPROVER_assert(!r_small || r_big, "twin: success under the smaller set implies success under the larger");
+#else
+    __CPROVER_assert(!r_big || r_small, "VerifyWitnessProgram: success under a flag set implies success under every subset of it");
+#endif
+    if ((big & SCRIPT_VERIFY_TAPROOT) && !(small & SCRIPT_VERIFY_TAPROOT) && r_big && wv == 1 && pr->size == 32 && !p2sh) VERIF_REACH_PT("taproot spend valid under both");
+}
 void h_GetBlockScriptFlags(void) { unsigned r = GetBlockScriptFlags(nondet_bool(), nondet_uint(), nondet_bool(), nondet_bool(), nondet_bool(), nondet_bool()); if (r & F(NULLDUMMY)) VERIF_REACH_PT("nulldummy"); if (!(r & F(P2SH))) VERIF_REACH_PT("p2sh off (exception)"); }
 /* lemma (contract + extracted constants): whatever block (exception or not) and whatever deployments are active, every consensus flag is also a standard flag */
 void h_lemma_consensus_subset_of_standard(void)
